@@ -129,7 +129,7 @@ PROPS["C07"] = dict(
 )
 
 PROPS["C09"] = dict(
-    modules=["Essential.Props.C09"],
+    modules=["Essential.Props.C09", "Essential.Props.C09b"],
     gen=gen_vm.c09_cases,
     project=vm_project, nontrivial=vm_nontrivial, classify=vm_classify, model_is_spec=True,
     exhaustive="jump distance grid (25 distances incl. i64 extremes) x 5 conditions; repeat counts x 4 direction words; 4x5x2x2 nested loops; nesting to the repeat-stack limit + 1",
